@@ -159,3 +159,141 @@ def acvp_siggen_file(path):
             out.append(dict(set=setno, sk=x["sk"].lower(), message=x["message"].lower(), rnd=x.get("rnd", "00" * 32).lower(), tc=x["tcId"]))
     json.dump(out, open(path, "w"))
     return len(out)
+
+
+# ---------------------------------------------------------------- Layer A trace validation
+API_CFG = os.path.join(TRACE_DIR, "TraceAPI.cfg")
+
+
+def api_traces(chk, bindir, scenario, sets=(44, 65, 87), outdir=None, **kw):
+    """Run one harness scenario per set concurrently; returns {set: path}."""
+    from concurrent.futures import ThreadPoolExecutor
+    outdir = outdir or os.path.join(chk.workdir, "api")
+    with ThreadPoolExecutor(max_workers=3) as ex:
+        list(ex.map(lambda s: vlib.drive(bindir, "api", scenario=scenario, sets=s, seed=chk.seed, out=outdir, **kw), sets))
+    return {s: os.path.join(outdir, "api_%s_%d.ndjson" % (scenario, s)) for s in sets}
+
+
+def validate_api(chk, traces, key_of=None, nproc=6, max_rejects=4, timeout=1800):
+    """Validate traces against Layer A.  A rejected line is a violation (with that line as the
+    replay); the line is then removed and the rest of the trace is validated again."""
+    import re
+    pending = [(name, path, 0) for name, path in traces.items()]
+    total = 0
+    while pending:
+        jobs = [dict(module=os.path.join(TRACE_DIR, "TraceAPI.tla"), cfg=API_CFG, workdir=os.path.join(chk.workdir, "tlca_%s_%d" % (str(name), rnd)),
+                     env={"TRACE": path}, workers=1, timeout=timeout, xmx="4g") for name, path, rnd in pending]
+        res = vlib.tlc_many(jobs, maxproc=nproc)
+        nxt = []
+        for (name, path, rnd), r in zip(pending, res):
+            lines = [ln for ln in open(path) if ln.strip()]
+            acc = [ln for ln in r["prints"] if ln.startswith('<<"TRACE_ACCEPTED"')]
+            rej = [ln for ln in r["prints"] if ln.startswith('<<"TRACE_REJECTED_AT"')]
+            chk.add_tlc(r, traces=1 if acc else 0)
+            if acc and r["rc"] == 0:
+                total += len(lines)
+                if lines:
+                    chk.sample(dict(trace=str(name), first_event=brief(json.loads(lines[0])), events=len(lines)))
+                continue
+            if not rej:
+                raise vlib.ToolError("TLC failed on trace %s (rc=%s):\n%s" % (path, r["rc"], r["out"][-3000:]))
+            n = int(re.match(r'<<"TRACE_REJECTED_AT", (\d+)>>', rej[0]).group(1))
+            ev = json.loads(lines[n - 1])
+            key = key_of(ev) if key_of else "api:%s" % ev.get("ev")
+            what = "trace %s: the API state machine has no step matching line %d: %s" % (name, n, json.dumps(ev)[:500])
+            chk.violation(key, what, dict(trace=str(name), line=n, event=ev, prefix=[json.loads(x) for x in lines[max(0, n - 6):n - 1]]))
+            if rnd + 1 < max_rejects:
+                p2 = path + ".r%d" % (rnd + 1)
+                with open(p2, "w") as f:
+                    f.writelines(lines[:n - 1] + lines[n:])
+                nxt.append((name, p2, rnd + 1))
+        pending = nxt
+    chk.add("events_judged_by_spec", total)
+    return total
+
+
+# ---------------------------------------------------------------- design-level model checking legs
+MC_DIR = os.path.join(vlib.SPEC, "mc")
+
+
+def mc_leg(chk, name, tier="quick", cfg=None, workers=8, timeout=3000, xmx="8g", must_print=None, env=None, expect_violation=False):
+    """Run spec/mc/<name>.tla with <name>.cfg (or <name>_thorough.cfg in the thorough tier when it
+    exists) under -coverage 1.  A failure of a design-level check is a defect of the
+    specification, i.e. a tool error, not a violation of the code."""
+    if cfg is None:
+        cfg = os.path.join(MC_DIR, name + ".cfg")
+        t = os.path.join(MC_DIR, name + "_thorough.cfg")
+        if tier == "thorough" and os.path.exists(t):
+            cfg = t
+    r = vlib.tlc(os.path.join(MC_DIR, name.split(":")[0] + ".tla"), cfg, os.path.join(chk.workdir, "mc_" + os.path.basename(cfg)), workers=workers,
+                 timeout=timeout, xmx=xmx, extra=["-coverage", "1"], env=env)
+    ok = r["rc"] == 0 and "No error has been found" in r["out"]
+    if expect_violation:
+        if "is violated" not in r["out"]:
+            raise vlib.ToolError("non-vacuity run %s was expected to produce a counterexample and did not" % cfg)
+        chk.leg("mc:" + os.path.basename(cfg), counterexample_found=True, wall_s=round(r["wall"], 1))
+        return r
+    if not ok:
+        raise vlib.ToolError("design-level model check %s failed (specification defect):\n%s" % (cfg, r["out"][-3500:]))
+    acts = vlib.coverage_actions(r["out"])
+    never = [a for a, (d, t) in acts.items() if t == 0 and not a.startswith("Action")]
+    if never:
+        raise vlib.ToolError("model check %s: actions never taken (vacuous): %s" % (cfg, never))
+    if must_print:
+        for s in must_print:
+            if s not in r["out"]:
+                raise vlib.ToolError("model check %s: expected coverage marker %r missing" % (cfg, s))
+    chk.add_tlc(r)
+    chk.leg("mc:" + os.path.basename(cfg), states=r["distinct"], transitions=r["generated"], wall_s=round(r["wall"], 1),
+            actions={a: t for a, (d, t) in acts.items()})
+    return r
+
+
+def behaviours_leg(chk, bindir, nbeh, depth=15, sets=(44, 65, 87)):
+    """M2a: TLC generates behaviours of the API state machine (simulation of MC_API); the harness
+    executes each against the real library; the recorded trace is validated against Layer A."""
+    r = vlib.tlc(os.path.join(MC_DIR, "MC_API.tla"), os.path.join(MC_DIR, "MC_API_sim.cfg"), os.path.join(chk.workdir, "mc_api_sim"),
+                 workers=1, timeout=900, xmx="4g", simulate="num=%d" % max(20, nbeh // 40), extra=["-depth", str(depth), "-seed", str(chk.seed + 11)])
+    seen, lines = set(), []
+    for ln in r["out"].splitlines():
+        if ln.startswith('<<"REPLAY", "'):
+            s = ln[len('<<"REPLAY", "'):-3].replace('\\"', '"')
+            if s not in seen:
+                seen.add(s)
+                lines.append(s)
+    if len(lines) < 10:
+        raise vlib.ToolError("MC_API simulation produced only %d behaviours\n%s" % (len(lines), r["out"][-2000:]))
+    import random
+    random.Random(chk.seed).shuffle(lines)
+    lines = lines[:nbeh]
+    traces = {}
+    for i, s in enumerate(sets):
+        part = lines[i::len(sets)]
+        f = os.path.join(chk.workdir, "behaviours_%d.jsonl" % s)
+        open(f, "w").write("\n".join(part) + "\n")
+        out = os.path.join(chk.workdir, "beh")
+        vlib.drive(bindir, "api", scenario="behaviours", sets=s, seed=chk.seed, file=f, out=out)
+        traces["behaviours-%d" % s] = os.path.join(out, "api_behaviours_%d.ndjson" % s)
+    n = validate_api(chk, traces, key_of=lambda e: "behaviour:" + e.get("ev", ""))
+    chk.leg("behaviour replay (spec -> implementation)", behaviours=len(lines), calls_per_behaviour=depth - 1, events=n)
+    chk.sample(dict(behaviour=json.loads(lines[0])[:6]))
+    return n
+
+
+def replay_api(pid, path):
+    """A Layer-A replay file holds the rejected line and the lines before it; the scenario that
+    produced it is deterministic in (seed, tier), so the replay re-runs the check's quick tier."""
+    import importlib
+    rep = json.load(open(path))
+    vlib.log("replaying by re-running the check (deterministic scenarios); rejected line was:", json.dumps(rep.get("replay", {}).get("event"))[:300])
+    return importlib.import_module("checks." + pid.lower()).run("quick", int(os.environ.get("VERIF_SEED", "1")))
+
+
+def mc_variants(chk, base, variants, tier="quick", **kw):
+    """Run spec/mc/<base>.tla once per variant configuration <base>_<variant>[_thorough].cfg."""
+    for v in variants:
+        cfg = os.path.join(MC_DIR, "%s_%s.cfg" % (base, v))
+        t = os.path.join(MC_DIR, "%s_%s_thorough.cfg" % (base, v))
+        if tier == "thorough" and os.path.exists(t):
+            cfg = t
+        mc_leg(chk, base, tier=tier, cfg=cfg, **kw)
